@@ -171,12 +171,22 @@ def _(self):
 
 @contract('TokenStore._merge_blocks')
 def _(self, a, b):
-    requires(Inv2(self) and SizesOK(self))
+    # called by _update_block while one of the two blocks is still pending: handles of a's and b's tokens are arbitrary
+    requires(Shape(self) and Idx(self, len(self._blocks)) and SizesOK(self) and InvOff(self))
     requires(a != None and b != None and 0 <= a.index and a.index + 1 < len(self._blocks) and self._blocks[a.index] is a and self._blocks[a.index + 1] is b and b.index == a.index + 1)
+    requires(HandExcept2(self, a.index, b.index) and NonEmptyExcept2(self, a.index, b.index) and len(a.tokens) + len(b.tokens) >= 1)
+    requires(TokOK(self, a) and TokOK(self, b))
+    modifies('Token.store_handle', '_StoreHandle.block@fresh', '_StoreHandle.index@fresh', '_StoreBlock.size@a', '_StoreBlock.size@b', '_StoreBlock.last_newline_index@a', '_StoreBlock.last_newline_index@b',
+             '_StoreBlock.index', 'Position.line@fresh', 'Position.column@fresh', 'list[Token]@a.tokens', 'list[Token]@b.tokens', 'list[_StoreBlock]@self._blocks', 'TokenStore.g_off@self')
     ghost_assert(0, forall(lambda k: implies(0 <= k and k < len(a.tokens), sel(self.g_view, sel(self.g_off, old(a.index)) + k) == a.tokens[k]), a.tokens[k]))
     ghost_assert(1, forall(lambda k: implies(0 <= k and k < len(a.tokens), sel(self.g_view, sel(old(self.g_off), old(a.index)) + k) == a.tokens[k]), a.tokens[k]))
     ghost_assert(1, implies(not (old(len(a.tokens)) + old(len(b.tokens)) < _DOUBLE_LOAD_FACTOR), len(a.tokens) == (old(len(a.tokens)) + old(len(b.tokens))) // 2 and len(a.tokens) + len(b.tokens) == old(len(a.tokens)) + old(len(b.tokens))
                     and forall(lambda k: implies(0 <= k and k < len(b.tokens), sel(self.g_view, sel(old(self.g_off), old(a.index)) + len(a.tokens) + k) == b.tokens[k]), b.tokens[k])))
+    ghost_assert(1, implies(not (old(len(a.tokens)) + old(len(b.tokens)) < _DOUBLE_LOAD_FACTOR), len(self._blocks) == old(len(self._blocks))
+                    and forall(lambda i: implies(0 <= i and i < len(self._blocks), self._blocks[i] is old(self._blocks[i])), self._blocks[i])
+                    and forall(lambda i, j: implies(0 <= i and i < len(self._blocks) and i != old(a.index) and i != old(b.index) and 0 <= j and j < len(self._blocks[i].tokens),
+                            len(self._blocks[i].tokens) == old(len(self._blocks[i].tokens)) and self._blocks[i].tokens[j] == old(self._blocks[i].tokens[j])
+                            and sel(self.g_view, sel(old(self.g_off), i) + j) == self._blocks[i].tokens[j]), self._blocks[i].tokens[j])))
     ghost('g_off', lambda k: ite(old(len(a.tokens)) + old(len(b.tokens)) < _DOUBLE_LOAD_FACTOR,
                                  ite(k <= old(a.index), sel(old(self.g_off), k), sel(old(self.g_off), k + 1)),
                                  ite(k == old(b.index), sel(old(self.g_off), old(a.index)) + (old(len(a.tokens)) + old(len(b.tokens))) // 2, sel(old(self.g_off), k))))
@@ -187,7 +197,8 @@ def _(self, a, b):
     ensures(sel(self.g_off, 0) == 0)
     ensures(forall(lambda i: implies(0 <= i and i < len(self._blocks), sel(self.g_off, i + 1) == sel(self.g_off, i) + len(self._blocks[i].tokens)), self._blocks[i], sel(self.g_off, i + 1)))
     ensures(forall(lambda i, k: implies(0 <= i and i <= k and k <= len(self._blocks), sel(self.g_off, i) <= sel(self.g_off, k)), (sel(self.g_off, i), sel(self.g_off, k))))
-    ensures(self.g_vlen == sel(self.g_off, len(self._blocks)) and self._len == self.g_vlen)
+    ensures(self.g_vlen == sel(self.g_off, len(self._blocks)) and self._len == old(self._len))
+    ensures(SizesOK(self))
     ensures(forall(lambda i, j: implies(0 <= i and i < len(self._blocks) and 0 <= j and j < len(self._blocks[i].tokens), sel(self.g_view, sel(self.g_off, i) + j) == self._blocks[i].tokens[j]), self._blocks[i].tokens[j]))
     ensures(self.g_vlen == old(self.g_vlen) and self.g_view == old(self.g_view))
 
@@ -208,6 +219,16 @@ def HandExcept(s, bi):
                 and s._blocks[i].tokens[j].store_handle.block is s._blocks[i] and s._blocks[i].tokens[j].store_handle.index == j), s._blocks[i].tokens[j])
 
 @macro
+def HandExcept2(s, bi, bj):
+    return forall(lambda i, j: implies(0 <= i and i < len(s._blocks) and i != bi and i != bj and 0 <= j and j < len(s._blocks[i].tokens),
+                s._blocks[i].tokens[j] != None and s._blocks[i].tokens[j].store_handle != None
+                and s._blocks[i].tokens[j].store_handle.block is s._blocks[i] and s._blocks[i].tokens[j].store_handle.index == j), s._blocks[i].tokens[j])
+
+@macro
+def NonEmptyExcept2(s, bi, bj):
+    return forall(lambda i: implies(0 <= i and i < len(s._blocks) and i != bi and i != bj and len(s._blocks) > 1, len(s._blocks[i].tokens) >= 1), s._blocks[i])
+
+@macro
 def NonEmptyExcept(s, bi):
     return forall(lambda i: implies(0 <= i and i < len(s._blocks) and i != bi and len(s._blocks) > 1, len(s._blocks[i].tokens) >= 1), s._blocks[i])
 
@@ -220,21 +241,25 @@ def TokOK(s, b):
 
 @contract('TokenStore._update_block')
 def _(self, block):
-    requires(Shape(self) and Idx(self, len(self._blocks)))
-    requires(block != None and 0 <= block.index and block.index < len(self._blocks) and self._blocks[block.index] is block)
-    requires(HandExcept(self, block.index) and NonEmptyExcept(self, block.index))
-    requires(TokOK(self, block))
-    requires(sel(self.g_off, 0) == 0)
-    requires(forall(lambda i: implies(0 <= i and i < len(self._blocks), sel(self.g_off, i + 1) == sel(self.g_off, i) + len(self._blocks[i].tokens)), self._blocks[i], sel(self.g_off, i + 1)))
-    requires(forall(lambda i, k: implies(0 <= i and i <= k and k <= len(self._blocks), sel(self.g_off, i) <= sel(self.g_off, k)), (sel(self.g_off, i), sel(self.g_off, k))))
-    requires(self.g_vlen == sel(self.g_off, len(self._blocks)))
-    requires(forall(lambda i, j: implies(0 <= i and i < len(self._blocks) and 0 <= j and j < len(self._blocks[i].tokens), sel(self.g_view, sel(self.g_off, i) + j) == self._blocks[i].tokens[j]), self._blocks[i].tokens[j]))
+    requires(Pending(self, block))
     modifies('*')
-    ensures(Shape(self) and Idx(self, len(self._blocks)) and Hand(self) and NonEmpty(self) and InvOff(self))
+    ensures(Shape(self) and Idx(self, len(self._blocks)) and Hand(self) and NonEmpty(self) and SizesOK(self) and InvOff(self))
     ensures(self.g_vlen == old(self.g_vlen) and self.g_view == old(self.g_view) and self._len == old(self._len))
     # lists that were not token lists of the store before the call are untouched
     ensures(forall(lambda l: implies(0 < l and l < old_alloc() and old(forall(lambda i: implies(0 <= i and i < len(self._blocks), self._blocks[i].tokens != l), self._blocks[i])),
                 len(as_list(l, 'Token')) == old(len(as_list(l, 'Token'))))))
+
+@macro
+def OH(t):       # handle the token had at function entry
+    return sel(old(fld('Token.store_handle')), t)
+
+@macro
+def OHB(t):
+    return sel(old(fld('_StoreHandle.block')), sel(old(fld('Token.store_handle')), t))
+
+@macro
+def OHI(t):
+    return sel(old(fld('_StoreHandle.index')), sel(old(fld('Token.store_handle')), t))
 
 @macro
 def A(s, start):      # absolute position of the first removed token (pre-state)
@@ -253,9 +278,17 @@ def _(self, tokens, start, end):
     requires(0 <= start[1] and start[1] <= len(self._blocks[start[0]].tokens) and 0 <= end[1] and end[1] <= len(self._blocks[end[0]].tokens))
     requires(start[0] < end[0] or start[1] <= end[1])
     requires(forall(lambda i: implies(0 <= i and i < len(self._blocks), self._blocks[i].tokens is not tokens), self._blocks[i]))
-    requires(forall(lambda k: implies(0 <= k and k < len(tokens), tokens[k].store_handle is None or (
-                tokens[k].store_handle.block != None and tokens[k].store_handle.block.store is self
-                and (start[0] < tokens[k].store_handle.block.index or (start[0] == tokens[k].store_handle.block.index and start[1] <= tokens[k].store_handle.index))
+    # every offered token is free or lives in THIS store (caller obligation; the code cannot check it)
+    requires(forall(lambda k: implies(0 <= k and k < len(tokens), tokens[k].store_handle is None or InStore(self, tokens[k])), tokens[k]))
+    # refusal: a token that lives in the store outside the removed range -> ValueError, nothing written
+    raises('ValueError', 'Token.store_handle', '_StoreBlock.tokens', '_StoreBlock.index', '_StoreBlock.size', '_StoreBlock.last_newline_index', 'TokenStore._blocks', 'TokenStore._len', 'Position.line', 'Position.column')
+    # offsets of the blocks outside the removed range, proved in the small entry context and used as hints later
+    ghost_assert(1, forall(lambda i, j: implies(0 <= i and i < start[0] and 0 <= j and j < old(len(self._blocks[i].tokens)),
+                        sel(old(self.g_off), i) + j < sel(old(self.g_off), start[0]) and sel(old(self.g_off), i + 1) <= sel(old(self.g_off), start[0])), old(self._blocks[i].tokens[j])))
+    ghost_assert(1, forall(lambda i: implies(end[0] < i and i <= old(len(self._blocks)), sel(old(self.g_off), end[0] + 1) <= sel(old(self.g_off), i)), sel(old(self.g_off), i)))
+    # ---- loop 0: the check loop establishes "free or strictly inside [start, end)"
+    invariant(0, forall(lambda k: implies(0 <= k and k < K, tokens[k].store_handle is None or (
+                (start[0] < tokens[k].store_handle.block.index or (start[0] == tokens[k].store_handle.block.index and start[1] <= tokens[k].store_handle.index))
                 and (tokens[k].store_handle.block.index < end[0] or (tokens[k].store_handle.block.index == end[0] and tokens[k].store_handle.index < end[1])))), tokens[k]))
     # ---- loop 1: same-block removal
     invariant(1, forall(lambda t: implies(old(as_ref(t, 'Token').store_handle) is None, as_ref(t, 'Token').store_handle is None)),
@@ -282,6 +315,25 @@ def _(self, tokens, start, end):
         and forall(lambda j: implies(start[1] <= j and j < start[1] + old(len(tokens)), self._blocks[start[0]].tokens[j] is sel(old(elems(tokens)), j - start[1])), self._blocks[start[0]].tokens[j])
         and forall(lambda j: implies(start[1] + old(len(tokens)) <= j and j < len(self._blocks[start[0]].tokens),
                 self._blocks[start[0]].tokens[j] is sel(old(elems(self._blocks[end[0]].tokens)), j - start[1] - old(len(tokens)) + end[1])), self._blocks[start[0]].tokens[j])))
+    # where the tokens of the rebuilt block came from, in terms of the handles they had at entry
+    before_call('TokenStore._update_block', 'assert', implies(start[0] < end[0],
+        forall(lambda j: implies(0 <= j and j < start[1], OH(self._blocks[start[0]].tokens[j]) != 0 and OHB(self._blocks[start[0]].tokens[j]) == old(self._blocks[start[0]]) and OHI(self._blocks[start[0]].tokens[j]) == j), self._blocks[start[0]].tokens[j])
+        and forall(lambda j: implies(start[1] + old(len(tokens)) <= j and j < len(self._blocks[start[0]].tokens),
+                OH(self._blocks[start[0]].tokens[j]) != 0 and OHB(self._blocks[start[0]].tokens[j]) == old(self._blocks[end[0]]) and OHI(self._blocks[start[0]].tokens[j]) == j - start[1] - old(len(tokens)) + end[1]), self._blocks[start[0]].tokens[j])))
+    before_call('TokenStore._update_block', 'assert', implies(start[0] < end[0],
+        forall(lambda k: implies(0 <= k and k < len(self._blocks[start[0]].tokens), self._blocks[start[0]].tokens[k] != None), self._blocks[start[0]].tokens[k])))
+    before_call('TokenStore._update_block', 'assert', implies(start[0] < end[0],
+        forall(lambda j, k: implies(0 <= j and j < k and k < len(self._blocks[start[0]].tokens), self._blocks[start[0]].tokens[j] != self._blocks[start[0]].tokens[k]), (self._blocks[start[0]].tokens[j], self._blocks[start[0]].tokens[k]))))
+    before_call('TokenStore._update_block', 'assert', implies(start[0] < end[0],
+        forall(lambda i, j, k: implies(0 <= i and i < len(self._blocks) and i != start[0] and 0 <= j and j < len(self._blocks[i].tokens) and 0 <= k and k < len(self._blocks[start[0]].tokens),
+                self._blocks[i].tokens[j] != self._blocks[start[0]].tokens[k]), (self._blocks[i].tokens[j], self._blocks[start[0]].tokens[k]))))
+    # the new view read block by block: before, inside and after the rebuilt block
+    before_call('TokenStore._update_block', 'assert', implies(start[0] < end[0],
+        forall(lambda i, j: implies(0 <= i and i < start[0] and 0 <= j and j < len(self._blocks[i].tokens), sel(self.g_view, sel(self.g_off, i) + j) == self._blocks[i].tokens[j]), self._blocks[i].tokens[j])))
+    before_call('TokenStore._update_block', 'assert', implies(start[0] < end[0],
+        forall(lambda j: implies(0 <= j and j < len(self._blocks[start[0]].tokens), sel(self.g_view, sel(self.g_off, start[0]) + j) == self._blocks[start[0]].tokens[j]), self._blocks[start[0]].tokens[j])))
+    before_call('TokenStore._update_block', 'assert', implies(start[0] < end[0],
+        forall(lambda i, j: implies(start[0] < i and i < len(self._blocks) and 0 <= j and j < len(self._blocks[i].tokens), sel(self.g_view, sel(self.g_off, i) + j) == self._blocks[i].tokens[j]), self._blocks[i].tokens[j])))
     # ---- loop 3: fast-path re-index
     invariant(3, forall(lambda j: implies(start_j <= j and j < start_j + K, block.tokens[j].store_handle != None and block.tokens[j].store_handle.block is block and block.tokens[j].store_handle.index == j), block.tokens[j]),
                  forall(lambda t: as_ref(t, 'Token').store_handle is pre(as_ref(t, 'Token').store_handle) or exists(lambda j: start_j <= j and j < start_j + K and block.tokens[j] == t)))
@@ -313,3 +365,127 @@ def _(self, tokens, start, end):
     ensures(InvOff(self))
     ensures(self.g_vlen == old(self.g_vlen) + old(len(tokens)) - (Bq(self, end) - A(self, start)))
     ensures(self._len == self.g_vlen)
+
+# ---------------------------------------------------------------- block construction
+@macro
+def TokList(l):      # a list of usable tokens: non-null, sized, pairwise distinct
+    return (l != None
+        and forall(lambda j: implies(0 <= j and j < len(l), l[j] != None and l[j].size != None and allocated(l[j].size)), l[j])
+        and forall(lambda j, k: implies(0 <= j and j < k and k < len(l), l[j] != l[k]), (l[j], l[k])))
+
+@contract('_StoreBlock.from_tokens')
+def _(cls, tokens, store, index):
+    requires(TokList(tokens))
+    modifies('Token.store_handle', '_StoreHandle.block@fresh', '_StoreHandle.index@fresh', '_StoreBlock.store@fresh', '_StoreBlock.index@fresh', '_StoreBlock.tokens@fresh',
+             '_StoreBlock.size@fresh', '_StoreBlock.last_newline_index@fresh', 'Position.line@fresh', 'Position.column@fresh')
+    invariant(0, block != None and fresh(block) and block.size is pre(block.size) and block.size != None and fresh(block.size) and block.tokens is tokens
+                 and block.store is store and block.index == index,
+                 forall(lambda o: implies(o != block.size, sel(fld('Position.line'), o) == sel(pre(fld('Position.line')), o) and sel(fld('Position.column'), o) == sel(pre(fld('Position.column')), o))),
+                 forall(lambda j: implies(0 <= j and j < K, tokens[j].store_handle != None and fresh(tokens[j].store_handle)
+                        and tokens[j].store_handle.block is block and tokens[j].store_handle.index == j), tokens[j]),
+                 forall(lambda t: as_ref(t, 'Token').store_handle is pre(as_ref(t, 'Token').store_handle) or exists(lambda j: 0 <= j and j < K and tokens[j] == t)),
+                 forall(lambda h: implies(0 < h and h < old_alloc(), as_ref(h, '_StoreHandle').block is old(as_ref(h, '_StoreHandle').block) and as_ref(h, '_StoreHandle').index == old(as_ref(h, '_StoreHandle').index))))
+    invariant(0, block.size.line == FLn(elems(tokens), fld('Token.size'), pre(fld('Position.line')), K),
+                 block.size.column == FCol(elems(tokens), fld('Token.size'), pre(fld('Position.line')), pre(fld('Position.column')), K),
+                 block.last_newline_index == FLni(elems(tokens), fld('Token.size'), pre(fld('Position.line')), K), aspect='cache')
+    ghost_assert(1, use('fold_frame', elems(tokens), fld('Token.size'), old(fld('Position.line')), old(fld('Position.column')), fld('Position.line'), fld('Position.column'), len(tokens)), aspect='cache')
+    ensures(result != None and fresh(result) and result.store is store and result.index == index and result.tokens is tokens)
+    ensures(forall(lambda j: implies(0 <= j and j < len(tokens), tokens[j].store_handle != None and tokens[j].store_handle.block is result and tokens[j].store_handle.index == j), tokens[j]))
+    ensures(forall(lambda t: as_ref(t, 'Token').store_handle is old(as_ref(t, 'Token').store_handle) or exists(lambda j: 0 <= j and j < len(tokens) and tokens[j] == t)))
+    ensures(result.size != None and fresh(result.size))
+    ensures(result.size.line == FLn(elems(tokens), fld('Token.size'), fld('Position.line'), len(tokens)), aspect='cache')
+    ensures(result.size.column == FCol(elems(tokens), fld('Token.size'), fld('Position.line'), fld('Position.column'), len(tokens)), aspect='cache')
+    ensures(result.last_newline_index == FLni(elems(tokens), fld('Token.size'), fld('Position.line'), len(tokens)), aspect='cache')
+
+@macro
+def Built(store, bl, m, tokens, start_index):
+    # the first m blocks of `bl` were built from consecutive chunks of `tokens`; store.g_boff[k] is the offset of chunk k
+    return (sel(store.g_boff, 0) == 0
+        and forall(lambda k: implies(0 <= k and k < m, bl[k] != None and bl[k].store is store and bl[k].index == start_index + k and bl[k].tokens != None and bl[k].tokens != tokens
+                and bl[k].size != None and len(bl[k].tokens) >= 1
+                and sel(store.g_boff, k + 1) == sel(store.g_boff, k) + len(bl[k].tokens)), bl[k], sel(store.g_boff, k + 1))
+        and forall(lambda i, k: implies(0 <= i and i <= k and k <= m, sel(store.g_boff, i) <= sel(store.g_boff, k)), (sel(store.g_boff, i), sel(store.g_boff, k)))
+        and forall(lambda i, k: implies(0 <= i and i < k and k < m, bl[i] != bl[k] and bl[i].tokens != bl[k].tokens), (bl[i], bl[k]))
+        and forall(lambda k, j: implies(0 <= k and k < m and 0 <= j and j < len(bl[k].tokens),
+                bl[k].tokens[j] == tokens[sel(store.g_boff, k) + j] and bl[k].tokens[j].store_handle != None
+                and bl[k].tokens[j].store_handle.block is bl[k] and bl[k].tokens[j].store_handle.index == j), bl[k].tokens[j]))
+
+@contract('_build_blocks')
+def _(store, start_index, tokens):
+    types(blocks='list[_StoreBlock]')
+    requires(store != None and TokList(tokens))
+    modifies('Token.store_handle', '_StoreHandle.block@fresh', '_StoreHandle.index@fresh', '_StoreBlock.store@fresh', '_StoreBlock.index@fresh', '_StoreBlock.tokens@fresh',
+             '_StoreBlock.size@fresh', '_StoreBlock.last_newline_index@fresh', 'Position.line@fresh', 'Position.column@fresh',
+             'list[_StoreBlock]@fresh', 'list[Token]@fresh', 'TokenStore.g_boff@store')
+    after_stmt('blocks = []', 'seto', store, 'g_boff', lambda k: 0)
+    after_stmt('blocks.append(_StoreBlock.from_tokens(tokens[start:start + _LOAD_FACTOR], store, start_index))', 'seto', store, 'g_boff',
+               lambda k: ite(k == len(blocks), sel(store.g_boff, len(blocks) - 1) + len(blocks[len(blocks) - 1].tokens), sel(store.g_boff, k)))
+    after_stmt('blocks.append(_StoreBlock.from_tokens(tokens[start:start + length], store, start_index))', 'seto', store, 'g_boff',
+               lambda k: ite(k == len(blocks), sel(store.g_boff, len(blocks) - 1) + len(blocks[len(blocks) - 1].tokens), sel(store.g_boff, k)))
+    after_stmt('blocks.append(_StoreBlock.from_tokens(tokens[start + length:], store, start_index + 1))', 'seto', store, 'g_boff',
+               lambda k: ite(k == len(blocks), sel(store.g_boff, len(blocks) - 1) + len(blocks[len(blocks) - 1].tokens), sel(store.g_boff, k)))
+    after_stmt('blocks.append(_StoreBlock.from_tokens(tokens[start:], store, start_index))', 'seto', store, 'g_boff',
+               lambda k: ite(k == len(blocks), sel(store.g_boff, len(blocks) - 1) + len(blocks[len(blocks) - 1].tokens), sel(store.g_boff, k)))
+    invariant(0, blocks is pre(blocks) and blocks != None and fresh(blocks) and start >= 0 and remaining >= 0 and start + remaining == len(tokens)
+                 and start_index == old(start_index) + len(blocks) and sel(store.g_boff, len(blocks)) == start,
+                 len(tokens) == old(len(tokens)) and forall(lambda j: implies(0 <= j and j < len(tokens), tokens[j] == old(tokens[j])), tokens[j]),
+                 Built(store, blocks, len(blocks), tokens, old(start_index)),
+                 forall(lambda k: implies(0 <= k and k < len(blocks), fresh(blocks[k]) and fresh(blocks[k].tokens) and fresh(blocks[k].size)), blocks[k]),
+                 forall(lambda j: implies(start <= j and j < len(tokens), tokens[j].store_handle is old(tokens[j].store_handle)), tokens[j]),
+                 forall(lambda t: as_ref(t, 'Token').store_handle is old(as_ref(t, 'Token').store_handle) or exists(lambda j: 0 <= j and j < start and tokens[j] == t)),
+                 forall(lambda t: implies(0 < t and t < old_alloc(), as_ref(t, 'Token').size is old(as_ref(t, 'Token').size))))
+    ensures(result != None and fresh(result))
+    ensures(implies(len(tokens) > 0, len(result) >= 1))
+    ensures(len(tokens) == old(len(tokens)) and forall(lambda j: implies(0 <= j and j < len(tokens), tokens[j] == old(tokens[j])), tokens[j]))
+    ensures(Built(store, result, len(result), tokens, old(start_index)))
+    ensures(sel(store.g_boff, len(result)) == len(tokens))
+    ensures(forall(lambda k: implies(0 <= k and k < len(result), fresh(result[k]) and fresh(result[k].tokens) and fresh(result[k].size)), result[k]))
+    ensures(forall(lambda t: as_ref(t, 'Token').store_handle is old(as_ref(t, 'Token').store_handle) or exists(lambda j: 0 <= j and j < len(tokens) and tokens[j] == t)))
+
+# ---------------------------------------------------------------- Pending: the state in which _splice hands a block to _update_block
+@macro
+def Pending(s, block):
+    return (Shape(s) and Idx(s, len(s._blocks)) and SizesOK(s)
+        and block != None and 0 <= block.index and block.index < len(s._blocks) and s._blocks[block.index] is block
+        and HandExcept(s, block.index) and NonEmptyExcept(s, block.index) and TokOK(s, block)
+        and forall(lambda k: implies(0 <= k and k < len(block.tokens), block.tokens[k].size != None and allocated(block.tokens[k].size)), block.tokens[k])
+        and InvOff(s))
+
+@contract('TokenStore._split_block')
+def _(self, block):
+    requires(Pending(self, block) and len(block.tokens) >= 1)
+    modifies('*')
+    ghost_assert(0, len(new_blocks) >= 1 and Built(self, new_blocks, len(new_blocks), block.tokens, block.index) and sel(self.g_boff, len(new_blocks)) == len(block.tokens)
+                    and block.index == old(block.index) and len(self._blocks) == old(len(self._blocks)))
+    ghost('g_off', lambda k: ite(k <= old(block.index), sel(old(self.g_off), k),
+                             ite(k <= old(block.index) + len(new_blocks), sel(old(self.g_off), old(block.index)) + sel(self.g_boff, k - old(block.index)),
+                                 sel(old(self.g_off), k - len(new_blocks) + 1))))
+    ensures(Shape(self) and Idx(self, len(self._blocks)) and Hand(self) and NonEmpty(self) and SizesOK(self))
+    ensures(InvOff(self))
+    ensures(self.g_vlen == old(self.g_vlen) and self.g_view == old(self.g_view) and self._len == old(self._len))
+    ensures(forall(lambda l: implies(0 < l and l < old_alloc() and old(forall(lambda i: implies(0 <= i and i < len(self._blocks), self._blocks[i].tokens != l), self._blocks[i])),
+                len(as_list(l, 'Token')) == old(len(as_list(l, 'Token'))))))
+
+@contract('TokenStore.__init__')
+def _(self):
+    modifies('TokenStore._blocks@self', 'TokenStore._len@self', 'TokenStore.g_off@self', 'TokenStore.g_vlen@self', 'TokenStore.g_view@self')
+    ghost('g_off', lambda k: 0)
+    ghost('g_vlen', 0)
+    ensures(Inv2(self) and SizesOK(self) and self.g_vlen == 0 and fresh(self._blocks))
+
+@contract('TokenStore.from_tokens')
+def _(cls, tokens):
+    requires(TokList(tokens))
+    raises('ValueError', 'Token.store_handle', '_StoreBlock.tokens', '_StoreBlock.index', 'TokenStore._blocks', 'TokenStore._len', 'list[Token]', 'list[_StoreBlock]')
+    modifies('Token.store_handle', '_StoreHandle.block@fresh', '_StoreHandle.index@fresh', '_StoreBlock.store@fresh', '_StoreBlock.index@fresh', '_StoreBlock.tokens@fresh',
+             '_StoreBlock.size@fresh', '_StoreBlock.last_newline_index@fresh', 'Position.line@fresh', 'Position.column@fresh',
+             'list[_StoreBlock]@fresh', 'list[Token]@fresh', 'TokenStore._blocks@fresh', 'TokenStore._len@fresh', 'TokenStore.g_boff@fresh', 'TokenStore.g_off@fresh', 'TokenStore.g_view@fresh', 'TokenStore.g_vlen@fresh')
+    invariant(0, forall(lambda k: implies(0 <= k and k < K, tokens[k].store_handle is None), tokens[k]))
+    ghost('result:g_off', lambda k: ite(len(tokens) > 0, sel(result.g_boff, k), 0))
+    ghost('result:g_view', lambda k: tokens[k])
+    ghost('result:g_vlen', len(tokens))
+    ensures(result != None and fresh(result))
+    ensures(Shape(result) and Idx(result, len(result._blocks)) and Hand(result) and NonEmpty(result) and SizesOK(result))
+    ensures(InvView(result))
+    ensures(result.g_vlen == len(tokens) and forall(lambda k: implies(0 <= k and k < len(tokens), sel(result.g_view, k) == tokens[k]), tokens[k]))
+    ensures(forall(lambda t: as_ref(t, 'Token').store_handle is old(as_ref(t, 'Token').store_handle) or exists(lambda j: 0 <= j and j < len(tokens) and tokens[j] == t)))
